@@ -23,6 +23,7 @@ func run(c *common.Ctx) *common.Result {
 	checkRange(c, res)
 	checkBuiltins(c, res)
 	checkTables(c, res)
+	checkFresh(c, res)
 	return res
 }
 
@@ -70,6 +71,8 @@ func replay(c *common.Ctx, path string) int {
 			return replayRange(rc)
 		case "table":
 			return replayTable(rc)
+		case "fresh":
+			return replayFresh(rc)
 		}
 		cl, d, _, m := evalCase(rc)
 		if m != "" {
